@@ -29,6 +29,7 @@ type jobSpec struct {
 	NativeDemo    []demoSpec `json:"native_demo,omitempty"`   // end-to-end demonstrations on the real stack, by assertion tag
 	TimeoutMs     int      `json:"timeout_ms,omitempty"`
 	MaxWorkers    int      `json:"max_workers,omitempty"`
+	SkipWitnessReplay bool `json:"skip_witness_replay,omitempty"` // harnesses shared with another check that validates them natively
 }
 
 type demoSpec struct {
@@ -210,7 +211,7 @@ func cmdCheck(args []string) int {
 				problems = append(problems, fmt.Sprintf("%s: no assertion site was reached (vacuity guard)", fn))
 			}
 			// --- translator validation: replay reachability witnesses natively
-			if !job.NoNative {
+			if !job.NoNative && !job.SkipWitnessReplay {
 				maxW := 2
 				if *tier == "thorough" {
 					maxW = 6
